@@ -169,6 +169,8 @@ NodeOK(t) ==
   /\ t.op = "div" => t.s[1] # t.s[2]
   /\ t.op \in Binary => ~(IsLit(t.s[1]) /\ IsLit(t.s[2]))
   /\ t.op \in UnaryMath => ~IsLit(t.s[1])
+  \* Abs(Abs(x)) = Abs(x); inner(b, a) with operands out of order is Conj(Inner(a, b)) and Abs drops the Conj
+  /\ t.op = "abs" => t.s[1].op \notin {"abs", "inner"}
   /\ t.op \in {"dx", "grad"} => Diffable(t.s[1])
   /\ t.op = "cond" => t.s[3] # t.s[4] /\ t.s[1] # t.s[2]
   /\ t.op \in Ordered => t.s[1] # t.s[2]
